@@ -30,7 +30,7 @@ def gen_case(rng, cfg, idx):
     r = rng.random()
     dtype = "float64" if r < 0.8 else ("float32" if r < 0.95 else "float16")
     for _ in range(20):
-        c = gen_dag(rng, nodes=cfg["nodes"], seed_kinds=False, dtype=dtype)
+        c = gen_dag(rng, nodes=cfg["nodes"], seed_kinds=False, dtype=dtype, node_gens=B.NODE_GENS_WITH_LAYERS if dtype == "float64" else None)
         if c is None:
             continue
         prog = c["prog"][:-1]
